@@ -78,6 +78,13 @@ def regen_constants(ctx):
     m = re.search(r'digest (\w+)', new); ctx.cov['constants_digest'] = m.group(1) if m else ''
     return True
 
+def gen_const(name, default=None):
+    """value of a constant the translator extracted from /repo's working tree (coq/Gen/Generated.v)"""
+    try:
+        m = re.search(r'^Definition %s : N := (\d+)\.' % re.escape(name), open(os.path.join(COQ, 'Gen', 'Generated.v')).read(), flags=re.M)
+        return int(m.group(1)) if m else default
+    except OSError: return default
+
 def coq_makefile():
     mk = os.path.join(COQ, 'Makefile')
     cp = os.path.join(COQ, '_CoqProject')
